@@ -113,6 +113,11 @@ def run(ctx):
               "not every one of the six field pulls reports MissingField when the input has run out (reported for pulls %s)" % sorted(missing_at), where,
               sample={"pull": "parts.next().ok_or(MissingField)"})
     inline = g.inline_stages(FROM_FEN)
+
+    def takes_text(n_):
+        # a stage that reads a field of the record (a stage without a text parameter only completes the board)
+        sb_ = f.bodies[n_]
+        return any(sb_.locals[i_]["ty"] == "&str" for i_ in range(1, sb_.argc + 1))
     for p in oks:
         evs = [e for e in p.events if e.kind == "call" and e.depth == 0]
         split = [e for e in evs if e.name == "str::split"]
@@ -122,7 +127,7 @@ def run(ctx):
         for e in p.events:
             if is_pull(e):
                 seq.append(("pull", e))
-            elif e.kind == "call" and e.depth == 0 and (g.is_stage(e.name) or (e.fn, e.bb) in inline):
+            elif e.kind == "call" and e.depth == 0 and ((g.is_stage(e.name) and takes_text(e.name)) or (e.fn, e.bb) in inline):
                 seq.append(("stage", e))
         # each stage's text argument is the payload of the pull immediately before it
         nst = 0
@@ -175,6 +180,8 @@ def run(ctx):
         sname = st.rsplit("::", 1)[-1]
         ctx.saw("%s: %d paths (peeled)" % (sname, len(ps)))
         tparams = [sb.local_name(i) for i in range(1, sb.argc + 1) if sb.locals[i]["ty"] == "&str"]
+        if not tparams:
+            continue        # completes the board from what was read already: no field of its own
         if len(tparams) != 1:
             ctx.fail("%s:text-parameter" % sname, "stage %s does not take exactly one &str" % sname, loc(sb))
             continue
@@ -316,8 +323,8 @@ def run(ctx):
         ctx.check(variants == {want}, "parser-error:%s" % stage, "a failure of %s (role %s) is reported as %s, expected %s" % (stage, role, sorted(map(str, variants)), want),
                   loc(bb), sample={"stage": stage, "error": want})
     # every part of the record has a failure that is attributed (however the stages and validators are cut into functions)
-    covered = {role for (stage, role) in emap}
-    ctx.floor("parts of the record with an attributed failure", len(covered & {"board", "derived", "castling", "ep", "half", "full"}), 6)
+    covered = {("board" if role in ("board", "derived") else role) for (stage, role) in emap}
+    ctx.floor("parts of the record with an attributed failure", len(covered & {"board", "castling", "ep", "half", "full"}), 5)
     # ------------------------------------------------------------------ dual notation
     ctx.rule("dual-notation")
     sb = f.need(FROM_STR)
